@@ -155,6 +155,7 @@ func (ex *Exec) tryAccelerate(fr *frame, h, prev *ssa.BasicBlock) (next *ssa.Bas
 	// ----- scratch execution of one arbitrary iteration -----
 	savedPC := len(ex.pc)
 	savedViol := len(ex.violations)
+	savedWit := append([]*witness{}, ex.witnesses...)
 	ex.pendingNotes = nil
 	var addedFacts []int
 	savedFactsHook := ex.factJournal
@@ -184,6 +185,7 @@ func (ex *Exec) tryAccelerate(fr *frame, h, prev *ssa.BasicBlock) (next *ssa.Bas
 		ex.curPos = savedPos
 		ex.bounds = savedBounds
 		ex.rngMemo = nil
+		ex.witnesses = savedWit
 	}
 	bailed := ""
 	func() {
